@@ -56,7 +56,10 @@ class C13(RexDriver):
             'size 2 over the 157 strings: options within 1 deviation; size 2 '
             'over the 40-string sub-alphabet and the structured list: within '
             '2 deviations; thorough adds Sigma_t, triples, the full 720-point '
-            'lattice) each run with tag off and on, and for the sampled path '
+            'lattice; structured families from the grammar of '
+            'rex_alphabet.family_sets x vlf off/on x extra letters; '
+            'two-shape sets with frequency ties x pruning options x vlf) '
+            'each run with tag off and on, and for the sampled path '
             '(set of 3-5 strings, Size in {1,2}^3, pruning point) with every '
             'sample answer explored; an evaluation is one extract/pdextract '
             'call; a case is non-trivial when at least one evaluation '
@@ -66,7 +69,8 @@ class C13(RexDriver):
         'java / posix dialects and lone surrogates excluded',
         '"distinct examples" is read as distinct supplied, non-discarded '
         'strings (the weaker bound when stripping merges examples)',
-        'tag equivalence is compared on the supplied strings only',
+        'tag equivalence: equal number of expressions and equal set of '
+        'supplied strings matched (not position by position)',
         'pdextract accepts no options (no tag): pandas forms are checked '
         'for the per-expression clauses only, at default options',
         'the tagged sampled run is given the same random.sample answers as '
